@@ -155,7 +155,7 @@ theorem loop_complete (T : Tbl) (rbp : Nat) : ∀ (frs : List Frame) (left : Tre
 def HeadOK (T : Tbl) (h : Tree) (after : List Tok) : Prop :=
   match h with
   | .atom _ _ => True
-  | .pre p x => ∃ r, T.nud p = .prefix r ∧ ParsesAt T r x after
+  | .pre p x => ∃ r rhs, T.nud p = .prefix r rhs ∧ rhsOk rhs (x.yield ++ after) = true ∧ ParsesAt T r x after
   | .group g c e => ∃ eo, T.nud g = .group c eo ∧ BodyOK T eo e c after
   | _ => False
 
@@ -174,10 +174,10 @@ theorem expr_complete (T : Tbl) (rbp : Nat) (h : Tree) (frs : List Frame) (rest 
     simp only [Tree.yield, List.cons_append, List.nil_append, expr]
     exact loop_complete T rbp frs _ rest hf f' (by simp [need] at hfuel; omega)
   | pre p x =>
-    obtain ⟨r, hnud, hx⟩ := hh
+    obtain ⟨r, rhs, hnud, hrhs, hx⟩ := hh
     obtain ⟨f', rfl⟩ : ∃ f', f = f' + 1 := ⟨f - 1, by simp [need] at hfuel; omega⟩
     have hx' := hx f' (by simp [need] at hfuel; omega)
-    simp only [Tree.yield, List.cons_append, expr, hnud, hx']
+    simp only [Tree.yield, List.cons_append, expr, hnud, hrhs, hx', Bool.not_true, Bool.false_eq_true, if_false]
     exact loop_complete T rbp frs _ rest hf f' (by simp [need] at hfuel; omega)
   | group g c e =>
     obtain ⟨eo, hnud, hbody⟩ := hh
